@@ -180,6 +180,13 @@ def t_nested(x):
         return list(ex.map(t_noop, range(2)))
 
 
+def t_desc_sleep(t):
+    """a task whose worker has a live descendant (a plain subprocess) for as long as it runs"""
+    import subprocess
+    subprocess.Popen([sys.executable, "-c", "import time; time.sleep(300)"])
+    time.sleep(t)
+
+
 def quiesce(deadline=30.0):
     """an executor's QueueFeederThread ends on its own shortly after the queue was closed (it is not joined
     by loky in the process that created the queue): wait for the threads of closed queues, then collect."""
